@@ -34,11 +34,11 @@ const NODE_CAP: u64 = 1_000_000;
 
 fn search(
     state: Option<Order>,
-    used: u64,
+    used: u128,
     evs: &[LEv],
     fin: &Option<Order>,
     silent_ok: bool,
-    seen: &mut HashSet<(u64, Option<(u64, u64)>)>,
+    seen: &mut HashSet<(u128, Option<(u64, u64)>)>,
     nodes: &mut u64,
 ) -> bool {
     *nodes += 1;
@@ -79,14 +79,14 @@ fn search(
         None => return false, // gone, yet events remain (or final mismatch)
     };
     for i in 0..n {
-        if used & (1u64 << i) != 0 {
+        if used & (1u128 << i) != 0 {
             continue;
         }
         let e = &evs[i];
         // every unused event that must precede e blocks it
         let blocked = (0..n).any(|j| {
             j != i
-                && used & (1u64 << j) == 0
+                && used & (1u128 << j) == 0
                 && (evs[j].ret < e.call || (evs[j].op_uid == e.op_uid && evs[j].pos < e.pos))
         });
         if blocked {
@@ -125,7 +125,7 @@ fn search(
             }
         };
         if let Some(ns) = next {
-            if search(ns, used | (1u64 << i), evs, fin, silent_ok, seen, nodes) {
+            if search(ns, used | (1u128 << i), evs, fin, silent_ok, seen, nodes) {
                 return true;
             }
         }
@@ -210,7 +210,7 @@ pub fn per_order_linearizable(ex: &Execution, st: &mut LinStats) -> Vec<String> 
                 continue;
             }
         };
-        if e.len() > 60 {
+        if e.len() > 120 {
             st.capped += 1;
             continue;
         }
@@ -386,11 +386,29 @@ pub fn ack_truthful(ex: &Execution, st: &mut AckStats) -> (Vec<String>, u64) {
                         && e.seq < r.ret
                         && matches!(e.op, Op::MapGet | Op::MapRemove)
                 });
-                let explained = match miss {
-                    Some((_, e)) => holds
-                        .iter()
-                        .any(|(t, k, s1, s2)| *t != r.thread && *k == id && *s1 < e.seq && e.seq < *s2),
-                    None => false,
+                let explained = if ex.exec.is_some() {
+                    // E1: exact attribution through the hook event log
+                    match miss {
+                        Some((_, e)) => holds
+                            .iter()
+                            .any(|(t, k, s1, s2)| *t != r.thread && *k == id && *s1 < e.seq && e.seq < *s2),
+                        None => false,
+                    }
+                } else {
+                    // E2 (no event log): only a match, or an amend of the same order, issued by
+                    // another thread can hold the order out of the map; if no such call overlaps
+                    // this one at all, nobody could have held it (conservative: an overlap is
+                    // taken as an explanation)
+                    ex.log.iter().any(|q| {
+                        q.thread != r.thread
+                            && q.call < r.ret
+                            && r.call < q.ret
+                            && match &q.op {
+                                COp::Match { .. } => true,
+                                COp::Amend { id: i2, .. } => model::key(i2) == id,
+                                _ => false,
+                            }
+                    })
                 };
                 if explained {
                     k4 += 1;
